@@ -14,6 +14,9 @@ C12 line-protocol driver.
       resp  = g:<tree|->:<etag path hex> | w | d:<tree> (/adapt) | r | amb | F<status>:<class>
       ids   = for every distinct "@id" text in the config, sorted: <hex>=<resp of GET /id/<text>, etag path only>
   cas <k> <n>                 k concurrent clients × n conditional increments → `cas <k*n>`
+  clean <p> | join <a> <b> | fields <s> | atoi <s> | itoa <n> | route <p>
+                              the byte-level models of path.Clean, path.Join, strings.Fields,
+                              strconv.Atoi/Itoa and the ServeMux dispatch, against the real functions
 -/
 import CaddyModel.C12.Model
 
@@ -315,6 +318,37 @@ def handle : List String → String
   | ["hist", steps] =>
     match runHist (steps.splitOn ";") with
     | some s => s
+    | none => "bad-op"
+  -- byte-level models of the standard-library functions the model relies on, against the real ones
+  | ["clean", p] =>
+    match Hex.decode p with
+    | some b => if b.head? == some slash then "ok " ++ Hex.encode (cleanRooted b) else "bad-op"
+    | none => "bad-op"
+  | ["join", a, b] =>
+    match Hex.decode a, Hex.decode b with
+    | some x, some y => if x.head? == some slash then "ok " ++ Hex.encode (pathJoin x y) else "bad-op"
+    | _, _ => "bad-op"
+  | ["fields", p] =>
+    match Hex.decode p with
+    | some b => if asciiOnly b then "ok " ++ ",".intercalate ((fieldsGo b []).map Hex.encode) else "bad-op"
+    | none => "bad-op"
+  | ["atoi", p] =>
+    match Hex.decode p with
+    | some b => match atoi b with
+      | some i => "ok " ++ toString i
+      | none => "err"
+    | none => "bad-op"
+  | ["itoa", n] =>
+    match n.toNat? with
+    | some k => "ok " ++ Hex.encode (natDigits k)
+    | none => "bad-op"
+  | ["route", p] =>
+    match Hex.decode p with
+    | some b =>
+      if !asciiOnly b || b.isEmpty then "bad-op" else
+      (match route b with
+        | .config => "config" | .id => "id" | .load => "load" | .adapt => "adapt"
+        | .redirect => "redirect" | .none => "none")
     | none => "bad-op"
   | ["cas", k, n] =>
     match k.toNat?, n.toNat? with
